@@ -156,6 +156,9 @@ def rule_AU1(ctx, tier):
                 rr.ok("%s: client signs the same template" % name)
             else:
                 rr.fail("%s:client-template" % name, "the client (`%s`) does not sign the template `%r` the tower verifies" % (client_fns[fn], lit), where=cf.span)
+    # the get_appointment message embeds the locator's text form: that is the 32-digit hex of its 16 bytes
+    from .rules_wire import identifier_text_forms
+    identifier_text_forms(ctx, rr, only=("Locator",))
     # per-user keys: every uuid used to read or write appointment data in the request paths is built from the
     # request's locator and the AUTHENTICATED id (isolation between users sharing a locator)
     ga = P.require(W + "get_appointment")
@@ -562,8 +565,71 @@ def rule_SB(ctx, tier):
     gou = P.require(GK + "outdated_users_in")
     from .rulekit import rel_of_term
 
+    from .rulekit import eval_u32, eval_u32_rel, Wraps, U32
+    M = U32 - 1
+
+    def sum_kind(t):
+        """how a sum of block heights is formed: 'plain' (`a + b`, which wraps in a release build and panics in a debug
+        one), 'saturating' (saturating_add, or checked_add(..).unwrap_or(MAX)), or None when the term is not a sum"""
+        if has_call(t, "saturating_add") or (has_call(t, "checked_add") and has_call(t, "unwrap_or") and "MAX" in og.show(t)):
+            return "saturating"
+        return "plain" if "Add" in og.show(t) else None
+
+    def height_leaf(pt):
+        """values for the leaves of a height expression at a grid point {h, e, d, dur}"""
+        def leaf(t):
+            if not (isinstance(t, tuple) and t):
+                return None
+            if t[0] == "param" and t[1] == gou.id and gou.locals[t[2]]["ty"] == "u32":
+                return pt["h"]
+            if t[0] == "call" and "Atomic" in t[1] and t[1].endswith("::load"):
+                return pt["h"]
+            if t[0] == "proj" and t[2]:
+                return {"f:subscription_expiry": pt["e"], "f:expiry_delta": pt["d"], "f:subscription_duration": pt["dur"]}.get(t[2][-1])
+            return None
+        return leaf
+
+    def judge_sum(t, a, b):
+        """a height sum on the boundary grid: 'ok', ('wraps', point), ('wrong', point, got, want) or None (form unknown)"""
+        vals = (0, 1, 2, 6, 4320, M // 2 + 1, M - 6, M - 1, M)
+        for x in vals:
+            for y in vals:
+                pt = {"h": 0, "e": 0, "d": 0, "dur": 0}
+                pt[a], pt[b] = x, y
+                if a == b:
+                    continue
+                try:
+                    got = eval_u32(t, height_leaf(pt))
+                except Wraps:
+                    return ("wraps", "%s=%d, %s=%d" % (a, x, b, y))
+                if got is None:
+                    return None
+                if got != min(x + y, M):
+                    return ("wrong", "%s=%d, %s=%d" % (a, x, b, y), got, min(x + y, M))
+        return "ok"
+
     def is_purge_cmp(op, l, r):
-        return op == "Ge" and isinstance(l, tuple) and l[:2] == ("param", gou.id) and gou.locals[l[2]]["ty"] == "u32" and "Add" in og.show(r) and "f:subscription_expiry" in og.show(r) and "f:expiry_delta" in og.show(r)
+        return op == "Ge" and isinstance(l, tuple) and l[:2] == ("param", gou.id) and gou.locals[l[2]]["ty"] == "u32" and sum_kind(r) and "f:subscription_expiry" in og.show(r) and "f:expiry_delta" in og.show(r)
+
+    def judge_purge(rels):
+        """the purge test on the boundary grid (conjunction of rels): purged <=> h >= e + d over the integers; the points
+        h = u32::MAX with e + d beyond it are no block height and are left out"""
+        vals = (0, 1, 2, 5, 6, 7, 100, 106, 107, M - 7, M - 6, M - 1, M)
+        for d_ in (0, 1, 6, M):
+            for e_ in vals:
+                for h_ in vals:
+                    if h_ == M and e_ + d_ > M:
+                        continue
+                    pt = {"h": h_, "e": e_, "d": d_, "dur": 0}
+                    try:
+                        got = [eval_u32_rel(x, height_leaf(pt)) for x in rels]
+                    except Wraps:
+                        return ("wraps", "height=%d, expiry=%d, grace=%d" % (h_, e_, d_))
+                    if any(g is None for g in got):
+                        return None
+                    if all(got) != (h_ >= e_ + d_):
+                        return ("wrong", "height=%d, expiry=%d, grace=%d" % (h_, e_, d_), all(got), h_ >= e_ + d_)
+        return "ok"
     cands = []  # (description, [(op, l, r)...])
     for cid in P.family(gou.id):
         cb = P.bodies[cid]
@@ -578,8 +644,20 @@ def rule_SB(ctx, tier):
                     rels.extend(rel_of_term(f_[1], f_[2]))
             if rels:
                 cands.append(("if %s { push }" % og.show(("bin", rels[0][0], rels[0][1], rels[0][2]))[:160], rels))
-    if len(cands) == 1 and any(is_purge_cmp(*x) for x in cands[0][1]):
-        rr.ok("outdated = (block_height >= subscription_expiry + expiry_delta)", sample={"rule": "SB", "get_outdated_users filter": cands[0][0]})
+    verdict = judge_purge(cands[0][1][::2]) if len(cands) == 1 else None
+    if len(cands) == 1 and (verdict == "ok" or (verdict is None and any(is_purge_cmp(*x) for x in cands[0][1]))):
+        rr.ok("outdated = (block_height >= subscription_expiry + expiry_delta)", sample={"rule": "SB", "get_outdated_users filter": cands[0][0], "judged": "on the boundary grid" if verdict == "ok" else "by its form"})
+        # a renewal saturates the expiry at u32::MAX (below), so the purge height must not wrap: a wrapping sum turns
+        # the LONGEST subscription into one that is purged at the next block (and aborts the chain thread, holding the
+        # users lock, in a build with overflow checks)
+        if verdict == "ok" or any(is_purge_cmp(*x) and sum_kind(x[2]) == "saturating" for x in cands[0][1]):
+            rr.ok("purge height = expiry + delta cannot wrap")
+        else:
+            rr.fail("purge-height-wraps", "get_outdated_users compares block_height with a plain `subscription_expiry + expiry_delta`; a renewal can leave subscription_expiry at u32::MAX, the sum then wraps (release) or panics under the users lock (debug), and that subscriber is purged at the next block instead of never", where=gou.span)
+    elif len(cands) == 1 and verdict and verdict[0] == "wraps":
+        rr.fail("purge-height-wraps", "get_outdated_users selects users with `%s`, whose arithmetic leaves the u32 range at %s (a renewal can leave subscription_expiry at u32::MAX): it wraps (release) or panics under the users lock (debug), and that subscriber is purged at the next block instead of never" % (cands[0][0][:160], verdict[1]), where=gou.span)
+    elif len(cands) == 1 and verdict:
+        rr.fail("purge-comparison", "get_outdated_users selects users with `%s`: at %s it says %s where `block_height >= subscription_expiry + expiry_delta` is %s" % (cands[0][0][:160], verdict[1], verdict[2], verdict[3]), where=gou.span)
     else:
         rr.fail("purge-comparison", "get_outdated_users selects users with `%s`; expected exactly one test, block_height >= subscription_expiry + expiry_delta" % (" / ".join(c[0] for c in cands)[:200] or "no comparison"), where=gou.span)
     # renewal
@@ -590,8 +668,13 @@ def rule_SB(ctx, tier):
     for bb, v in ws:
         s = og.show(v)
         sat = has_call(v, "saturating_add") or (has_call(v, "checked_add") and has_call(v, "unwrap_or") and "MAX" in s)
-        if sat and "f:subscription_expiry" in s and "f:subscription_duration" in s:
+        jv = judge_sum(v, "e", "dur")
+        if jv == "ok" or (jv is None and sat and "f:subscription_expiry" in s and "f:subscription_duration" in s):
             rr.ok("renewed expiry = expiry + duration, saturating at u32::MAX")
+        elif jv and jv[0] == "wraps":
+            rr.fail("renew:expiry-wraps", "renewal writes subscription_expiry = `%s`, which leaves the u32 range at %s: the renewed subscription wraps to a height in the past (release) or the handler panics under the users lock (debug)" % (s[:160], jv[1]), where=r.line_of(bb))
+        elif jv:
+            rr.fail("renew:expiry", "renewal writes subscription_expiry = `%s`: at %s that is %d, not expiry + duration (saturating) = %d" % (s[:160], jv[1], jv[2], jv[3]), where=r.line_of(bb))
         else:
             rr.fail("renew:expiry", "renewal writes subscription_expiry = `%s`" % s[:200], where=r.line_of(bb))
         if variant_fact(ctx, r, bb, "Some", "HashMap", "get_mut"):
@@ -612,8 +695,16 @@ def rule_SB(ctx, tier):
     for bb in sites(r, "teos::gatekeeper::UserInfo::new"):
         a0, a1, a2 = (arg_origin(ctx, r, bb, i) for i in range(3))
         s2 = og.show(a2)
-        if og.show(a0).endswith("f:subscription_slots") and has_call(a1, "Atomic", "load") and "Add" in s2 and "f:subscription_duration" in s2 and has_call(a2, "Atomic", "load"):
+        jv = judge_sum(a2, "h", "dur")
+        head_ok = og.show(a0).endswith("f:subscription_slots") and has_call(a1, "Atomic", "load")
+        if head_ok and (jv == "ok" or (jv is None and sum_kind(a2) == "saturating" and "f:subscription_duration" in s2 and has_call(a2, "Atomic", "load"))):
             rr.ok("new user = (slots, start = height, expiry = height + duration)")
+            rr.ok("first expiry = height + duration cannot wrap")
+        elif head_ok and ((jv and jv[0] == "wraps") or (jv is None and sum_kind(a2) == "plain" and "f:subscription_duration" in s2 and has_call(a2, "Atomic", "load"))):
+            rr.ok("new user = (slots, start = height, expiry = height + duration)")
+            rr.fail("register:first-expiry-wraps", "a new user's expiry is a plain `height + subscription_duration`: for a duration above u32::MAX - height the sum wraps to a height in the past (release) or panics under the users lock (debug), while a renewal of the same subscription saturates", where=r.line_of(bb))
+        elif head_ok and jv:
+            rr.fail("register:new-user", "a new user is created with expiry `%s`: at %s that is %d, not height + duration = %d" % (s2[:100], jv[1], jv[2], jv[3]), where=r.line_of(bb))
         else:
             rr.fail("register:new-user", "a new user is created as UserInfo::new(%s, %s, %s)" % (og.show(a0)[:60], og.show(a1)[:60], s2[:80]), where=r.line_of(bb))
         if variant_fact(ctx, r, bb, "None", "HashMap", "get_mut"):
